@@ -2,6 +2,7 @@
     Model: Model/CacheX.v ([serveX]/[runX]: kvarn::handle_cache with streams, body sizes, the status filter, override
     URIs and the repaired code paths); [_refuted]: witnesses on the model of the code before a repair. *)
 From KV Require Import Bytes RustInt Range CacheControl Cache CacheProofs Fixture CacheX CacheXProofs CacheXWitness CacheKey CacheKeyProofs.
+From KV Require Import RuleSet CacheRules CacheRulesProofs CacheReachProofs CacheFixtureProofs.
 Open Scope N_scope.
 
 Section C03.
@@ -81,6 +82,22 @@ Theorem query_start_needed :
   fst (path_query r) = fst (path_query r') /\ key_eqb_string_only (key_pq r) (key_pq r') = true /\
   key_eqb (key_pq r) (key_pq r') = false /\ rq_path r <> rq_path r'.
 Proof. exact query_start_needed_w. Qed.
+
+(** The key is made from the RAW path ([Uri::path]), the path kvarn routes on: an entry stored under either key of one
+    URI is found with either key of another only if the two raw paths are the same bytes — different percent-spellings
+    of one decoded path ("/page", "/p%61ge") never share an entry. *)
+Theorem key_is_raw_path : forall (r r' : request) (k k' : key),
+  In k [key_pq r; key_p r] -> In k' [key_pq r'; key_p r'] -> key_eqb k k' = true -> rq_path r = rq_path r'.
+Proof. exact key_is_raw_path_x. Qed.
+
+(** ... and decoding the path in the key (the seeded change C03-6) merges requests the routing tells apart *)
+Theorem decoded_key_collides_refuted :
+  let r := rq_get (B "/page") None in let r' := rq_get (B "/p%61ge") None in
+  rq_path r <> rq_path r' /\
+  key_eqb (key_pq_decoded r) (key_pq_decoded r') = true /\ key_eqb (key_p_decoded r) (key_p_decoded r') = true /\
+  key_eqb (key_pq r) (key_pq r') = false /\ key_eqb (key_p r) (key_p r') = false /\
+  w9_status (rq_path r) = 200 /\ w9_status (rq_path r') = 404.
+Proof. exact decoded_key_collides_refuted_w. Qed.
 
 Example c03_ex_keys_apart :
   key_eqb (key_pq (rq_get (B "/x/y") (Some (B "z=1")))) (key_pq (rq_get (B "/x/yz=1") None)) = false /\
@@ -164,3 +181,120 @@ Example c03_ex_repaired_override :
   bodies (run_cfgx true (mkCfgX (cx_base w3_cx) [] 0 (cx_ovprime w3_cx) true true true true true true) (w3_ops ++ w3_ops)) =
   bodies (run_cfgx false (mkCfgX (cx_base w3_cx) [] 0 (cx_ovprime w3_cx) true true true true true true) (w3_ops ++ w3_ops)).
 Proof. vm_compute. reflexivity. Qed.
+
+(** ---- the vary rules of a cached page ([Vary::rules_from_path] = [RuleSet::get], C14) ----
+    The model ([rules_for_x], used by [vary_tuple_x] / [vary_header_x] for the path of the URI the response is cached
+    under — after the rewriting Primes, the internal route if a Prime overrode the URI) applies the rules of the
+    independent resolver of C14: of the patterns added to the host's rule set that cover the path, the most specific
+    one, with the rules added last for it. *)
+Theorem vary_rules_most_specific : forall (rules : list (bytes * list vrule)) (p : bytes),
+  rules_for_x p rules = rules_or_none (resolve rules p).
+Proof. exact rules_for_x_resolve. Qed.
+
+(** an exact rule for the path wins against every pattern that covers the path too, whatever their lengths ... *)
+Theorem vary_exact_rule_wins : forall (rules : list (bytes * list vrule)) (p : bytes) (rs : list vrule),
+  is_wild p = false -> last_added rules p = Some rs -> rules_for_x p rules = rs.
+Proof. exact exact_rule_wins. Qed.
+
+(** ... and without one the longest pattern that covers it *)
+Theorem vary_longest_pattern_wins : forall (rules : list (bytes * list vrule)) (p q : bytes) (rs : list vrule),
+  (forall x, In x (map fst rules) -> covers x p = true -> is_wild x = true /\ (length x <= length q)%nat) ->
+  is_wild q = true -> covers q p = true -> last_added rules q = Some rs -> rules_for_x p rules = rs.
+Proof. exact longest_pattern_wins. Qed.
+
+(** the seeded change C03-7 (rule set sorted by length first): the pattern "/lang*" shadows the exact rule "/lang", and
+    the two x-w variants of the page get one tuple *)
+Theorem length_first_shadows_exact_refuted :
+  rules_for_x (B "/lang") w8_rules = [(B "x-w", 0, B "dw")] /\
+  rules_for_len_first (B "/lang") w8_rules = [(B "x-v", 0, B "dv")] /\
+  tuple_of_rules (rules_for_x (B "/lang") w8_rules) (w8_req (B "sv")) <> tuple_of_rules (rules_for_x (B "/lang") w8_rules) (w8_req (B "en")) /\
+  tuple_of_rules (rules_for_len_first (B "/lang") w8_rules) (w8_req (B "sv")) =
+  tuple_of_rules (rules_for_len_first (B "/lang") w8_rules) (w8_req (B "en")).
+Proof. exact length_first_shadows_exact_refuted_w. Qed.
+
+Example c03_ex_rules :
+  rules_for_x (B "/lang") [(B "/lang*", [(B "x-v", 0, B "dv")]); (B "/lang", [(B "x-w", 0, B "dw")]); (B "/*", [])] = [(B "x-w", 0, B "dw")] /\
+  rules_for_x (B "/language") [(B "/lan*", []); (B "/lang*", [(B "x-v", 0, B "dv")]); (B "/lang", [(B "x-w", 0, B "dw")])] = [(B "x-v", 0, B "dv")] /\
+  rules_for_x (B "/other") [(B "/lang*", [(B "x-v", 0, B "dv")]); (B "/lang", [(B "x-w", 0, B "dw")])] = [].
+Proof. vm_compute. repeat split. Qed.
+
+(** ---- the contract asked only of what the server can produce ----
+    [cache_transparent] asks the handler contract of every (request, override URI) pair; a handler that echoes the
+    request's path cannot meet it for override URIs no Prime of the host produces.  The same theorem with the contract
+    restricted to a set [reach] that contains every pair the Primes produce ([reach := fun _ _ => True] is
+    [cache_transparent]); the invariant [TInvR] is [TInv] with "computed for a reachable pair". *)
+Theorem cache_transparent_reachable :
+  forall (hstate : Type) (compute : hstate -> request -> option (bytes * option bytes) -> bool -> fatx * hstate * list bytes)
+         (ims_on fix_clear : bool) (sfilter : N -> bool) (parse_ims : bytes -> option Z) (sanitize_ok : request -> bool)
+         (prime : request -> request) (override : request -> option (bytes * option bytes))
+         (negotiate : request -> fatx -> option (N * bytes)) (vary_tuple : request -> option (bytes * option bytes) -> tuple)
+         (vary_header : request -> option (bytes * option bytes) -> fatx -> list (bytes * bytes)) (clear_alias : request -> option request)
+         (reach : request -> option (bytes * option bytes) -> Prop),
+  (forall r0, reach (prime r0) (override r0)) ->
+  forall cf : request -> option (bytes * option bytes) -> bool -> fatx,
+  (forall hs r ov ok, fst (fst (compute hs r ov ok)) = cf r ov ok) ->
+  (forall r ov r' ov', reach r ov -> reach r' ov' ->
+     get_or_head (rq_method r) = true -> get_or_head (rq_method r') = true ->
+     vary_tuple r ov = vary_tuple r' ov' -> rq_path (lookup_req r ov) = rq_path (lookup_req r' ov') ->
+     (qmx (cf r ov true) = true -> path_query (lookup_req r ov) = path_query (lookup_req r' ov')) ->
+     cf r ov true = cf r' ov' true) ->
+  (forall r ov, f_spref (fx_fat (cf r ov false)) = SP_NONE) ->
+  forall ops c hs cU hsU now,
+  TInvR vary_tuple reach cf c -> Forall (op_no_imsx ims_on prime) ops ->
+  Forall2 obsx_equiv
+    (runX hstate compute true ims_on true true fix_clear true true true sfilter parse_ims sanitize_ok prime
+          override negotiate vary_tuple vary_header clear_alias (c, hs) now ops)
+    (runX hstate compute false ims_on true true fix_clear true true true sfilter parse_ims sanitize_ok prime
+          override negotiate vary_tuple vary_header clear_alias (cU, hsU) now ops).
+Proof.
+  intros hstate compute ims_on fix_clear sfilter parse_ims sanitize_ok prime override negotiate vary_tuple vary_header clear_alias
+         reach Hreach cf Hpure contract Herr.
+  exact (run_simR hstate compute ims_on fix_clear sfilter parse_ims sanitize_ok prime override negotiate vary_tuple vary_header
+           clear_alias reach Hreach cf Hpure contract Herr).
+Qed.
+
+(** ---- the fixture honours the contract: the theorem applies to the model runs that are compared with the code ----
+    For every configuration of the fixture menu that passes [wf_fixture] (Model/CacheRules.v: no counting and no
+    extended handlers; path-echo handlers declare QueryMatters and are not internal routes; tuple-echo handlers echo the
+    rules [rules_for_x] selects for their path — exact rule, else longest pattern; any statuses, headers, preferences,
+    status filter, default extensions with the '/', 'dir/', 'name.' expansion and the CORS denial route, override
+    Prime), the handler contract holds of the pairs the fixture's Primes produce ... *)
+Theorem fixture_honours_contract : forall (cx : configx), wf_fixture cx = true ->
+  let de := cf_default_ext (cx_base cx) in let rules := cf_vary (cx_base cx) in let ovp := cx_ovprime cx in
+  (forall r0, reach_fix de ovp (prime_fix de r0) (override_x de ovp r0)) /\
+  (forall hs r ov ok, fst (fst (compute_x de (cf_handlers (cx_base cx)) [] hs r ov ok)) = cf_fix cx r ov ok) /\
+  (forall r ov r' ov', reach_fix de ovp r ov -> reach_fix de ovp r' ov' ->
+     get_or_head (rq_method r) = true -> get_or_head (rq_method r') = true ->
+     vary_tuple_x true rules r ov = vary_tuple_x true rules r' ov' ->
+     rq_path (lookup_req r ov) = rq_path (lookup_req r' ov') ->
+     (qmx (cf_fix cx r ov true) = true -> path_query (lookup_req r ov) = path_query (lookup_req r' ov')) ->
+     cf_fix cx r ov true = cf_fix cx r' ov' true) /\
+  (forall r ov, f_spref (fx_fat (cf_fix cx r ov false)) = SP_NONE).
+Proof.
+  intros cx WF. cbv zeta. split; [exact (fixture_reach cx)|]. split; [exact (fixture_pure cx WF)|].
+  split; [exact (fixture_contract cx WF) | exact (fixture_err cx)].
+Qed.
+
+(** ... and therefore, for EVERY history of requests (without If-Modified-Since: C04), page clears, clear-alls and waits,
+    the model of the caching host ([run_cfgx true] = component pipex.run, compared with the real host on every check)
+    and the model of the cache-less host ([run_cfgx false] = component pipex.run_nocache, the oracle) answer alike:
+    status, headers, body, identity body, stream *)
+Theorem fixture_cache_transparent : forall (cx : configx) (ops : list opx),
+  wf_fixture cx = true ->
+  Forall (op_no_imsx (cf_ims (cx_base cx)) (prime_fix (cf_default_ext (cx_base cx)))) ops ->
+  Forall2 obsx_equiv (run_cfgx true cx ops) (run_cfgx false cx ops).
+Proof. exact (fun cx ops WF => fixture_transparent cx WF ops). Qed.
+
+(** non-vacuity: the configurations of the three seeded gaps pass [wf_fixture] — a page behind an exact rule next to a
+    covering pattern, a rule on the page '/' expands to, a path-echo handler bound to two percent-spellings *)
+Definition ex_cx (de : bool) (hs : list hspec) (rules : list (bytes * list vrule)) : configx :=
+  mkCfgX (mkCfg true de true hs rules [] 500) [] 0 None true true true true true true.
+Example c03_ex_wf :
+  wf_fixture (ex_cx false [mkH (B "/lang") 3 200 (B "P") [] SP_FULL 0 true [(B "x-w", 0, B "dw")];
+                           mkH (B "/langx") 3 200 (B "Q") [] SP_QUERY 0 true [(B "x-v", 0, B "dv")]] w8_rules) = true /\
+  wf_fixture (ex_cx true [mkH (B "/index.html") 3 200 (B "L") [] SP_FULL 0 true [(B "x-w", 1, B "dw")]]
+                    [(B "/index.html", [(B "x-w", 1, B "dw")])]) = true /\
+  wf_fixture (ex_cx true [mkH (B "/data.json") 1 200 (B "for:") [] SP_QUERY 0 true []; mkH (B "/data%2Ejson") 1 200 (B "for:") [] SP_QUERY 0 true []] []) = true /\
+  (* a tuple-echo handler that ignores the rule of its path is rejected *)
+  wf_fixture (ex_cx false [mkH (B "/lang") 3 200 (B "P") [] SP_FULL 0 true [(B "x-v", 0, B "dv")]] w8_rules) = false.
+Proof. vm_compute. repeat split. Qed.
